@@ -384,6 +384,7 @@ func runC20(c *Ctx) {
 	}
 
 	ruleGoCapture(c)
+	ruleNoSharedMutableGlobals(c)
 
 	ruleResultOnEveryExit(c) // "never deadlocks": the command loop blocks on the delivery result
 	ruleGoBounded(c)
@@ -655,4 +656,63 @@ func setList(s map[string]bool) []string {
 	}
 	sort.Strings(o)
 	return o
+}
+
+// ruleNoSharedMutableGlobals (C20, C12): connections run concurrently, so package-level slices and maps must not be
+// written after initialisation. An append whose base is a package-level slice counts as a write: when the slice has
+// spare capacity the new element lands in the shared backing array and concurrent handlers overwrite each other.
+func ruleNoSharedMutableGlobals(c *Ctx) {
+	R := c.R
+	R.Rule("R-no-shared-mutable-globals", "E7 escape of package-level state", "outside the package initialiser no function appends to, stores into or updates a package-level slice or map", 1)
+	isGlobalAgg := func(v ssa.Value) (string, bool) {
+		v = stripConv(v)
+		u, ok := v.(*ssa.UnOp)
+		if !ok {
+			return "", false
+		}
+		g, ok := u.X.(*ssa.Global)
+		if !ok || g.Pkg == nil || g.Pkg.Pkg.Path() != smtpPath {
+			return "", false
+		}
+		switch g.Type().(*types.Pointer).Elem().Underlying().(type) {
+		case *types.Slice, *types.Map:
+			return g.Name(), true
+		}
+		return "", false
+	}
+	nFuncs := 0
+	for _, f := range c.P.AllFuncs() {
+		if !inSmtp(f) || f.Name() == "init" || strings.HasPrefix(f.Name(), "init#") {
+			continue
+		}
+		nFuncs++
+		allInstrs(f, func(in ssa.Instruction) {
+			switch x := in.(type) {
+			case *ssa.Call:
+				if b, ok := x.Call.Value.(*ssa.Builtin); ok && b.Name() == "append" && len(x.Call.Args) > 0 {
+					base := x.Call.Args[0]
+					// follow local copies: caps := baseCaps
+					if name, ok := isGlobalAgg(base); ok {
+						R.Ob(c.siteKey(in, "append to package-level slice "+name), c.P.InstrPos(in), false, "append with the package-level slice "+name+" as its base: with spare capacity the element is written into the array shared by all connections (concurrent EHLOs overwrite each other's capability lists)")
+					}
+					if sl, ok := stripConv(base).(*ssa.Slice); ok {
+						if name, ok := isGlobalAgg(sl.X); ok {
+							R.Ob(c.siteKey(in, "append to a slice of package-level "+name), c.P.InstrPos(in), false, "append onto a slice of the package-level "+name)
+						}
+					}
+				}
+			case *ssa.MapUpdate:
+				if name, ok := isGlobalAgg(x.Map); ok {
+					R.Ob(c.siteKey(in, "update of package-level map "+name), c.P.InstrPos(in), false, "package-level map "+name+" is written at run time without synchronisation")
+				}
+			case *ssa.Store:
+				if ia, ok := x.Addr.(*ssa.IndexAddr); ok {
+					if name, ok := isGlobalAgg(ia.X); ok {
+						R.Ob(c.siteKey(in, "store into package-level slice "+name), c.P.InstrPos(in), false, "element of the package-level slice "+name+" is written at run time")
+					}
+				}
+			}
+		})
+	}
+	R.Ob("package functions/scanned for writes to package-level aggregates", "-", nFuncs >= 50, fmt.Sprintf("%d functions scanned", nFuncs))
 }
